@@ -388,6 +388,30 @@ Definition properties_cbor (value : bytes) (encoding : option bytes) (chunks : l
     else None
   end.
 
+(* compress_properties: the two `ensure!`s on a cbor of [len] bytes compressed to [clen] bytes *)
+Definition compress_accepts (len clen : N) : bool :=
+  andb (len <=? MAX_COMPRESSED_PROPERTIES_SIZE) (len <=? clen * MAX_PROPERTIES_COMPRESSION_RATIO).
+
+(* The same loop on lengths only (what the decision depends on): used by the wire entry for
+   multi-megabyte streams; Proofs/Cbor_proofs.v shows it is the length of [decompress_loop]. *)
+Fixpoint decompress_len (max acc : N) (sizes : list N) (err_at_end : bool) : option N :=
+  match sizes with
+  | [] => if err_at_end then None else Some acc
+  | n :: r =>
+    if n =? 0 then Some acc
+    else if max <? acc + n then None
+    else decompress_len max (acc + n) r err_at_end
+  end.
+
+Definition properties_cbor_len (value_len : N) (encoding : option bytes) (sizes : list N) (err_at_end : bool)
+  : option N :=
+  match encoding with
+  | None => Some value_len
+  | Some e =>
+    if bytes_eqb e BROTLI then decompress_len (decompress_max value_len) 0 sizes err_at_end
+    else None
+  end.
+
 (* ------------------------------------------------------------------ wire *)
 
 Definition read_trait (l : list Z) : trait * list Z :=
@@ -465,6 +489,10 @@ Definition C28_CONSTANTS : list N :=
                                    then ends (err = 0) or fails (err = 1): 0 | 1 len
           3 n lens.. props     index chosen by encode_properties among candidates of these n lengths
           4 ..                 arbitrary bytes to from_cbor: not modelled (S only), answers [0]
+          6 props              encode_properties(compress) then properties(): brotli is external, not
+                               modelled (S only), answers [0]
+          5 seed b z pad vlen enc err sizes..   as op 1 for a value given by a descriptor (expanded by the
+                               harness only); the model runs the loop on lengths: 0 | 1 len
           9                    constants *)
 Definition run_C28 (inp : list Z) : list Z :=
   match inp with
@@ -489,9 +517,20 @@ Definition run_C28 (inp : list Z) : list Z :=
       end
     | [] => [(-1)%Z]
     end
+  | 5%Z :: _seed :: _b :: _z :: _pad :: vlen :: r =>
+    let '(enc, r1) := read_optb r in
+    match r1 with
+    | err :: sizes =>
+      match properties_cbor_len (nZ vlen) enc (ns sizes) (negb (Z.eqb err 0)) with
+      | Some n => [1%Z; zN n]
+      | None => [0%Z]
+      end
+    | [] => [(-1)%Z]
+    end
   | 3%Z :: n :: r =>
     match choose (ns (firstn (Z.to_nat n) r)) with Some i => [zN i] | None => [(-1)%Z] end
   | 4%Z :: _ => [0%Z]
+  | 6%Z :: _ => [0%Z]
   | 9%Z :: nil => zs C28_CONSTANTS
   | _ => [(-1)%Z]
   end.
